@@ -113,7 +113,7 @@ func isDig(b byte) bool { return b >= '0' && b <= '9' }
 // Speller turns model values into tokens. The renderer implements it with generated choices,
 // PlainSpeller is the fixed canonical choice.
 type Speller interface {
-	Name(n MName) string           // a domain name in RDATA
+	Name(n MName) string            // a domain name in RDATA
 	Num(v uint32, unit bool) string // a number; unit = a duration, unit suffixes are permitted
 	Str(b []byte) string            // a character-string (with its quotes, if any)
 	Word(s string) string           // a case-insensitive keyword (mnemonic)
@@ -210,13 +210,13 @@ func Tokens(rd RData, sp Speller) ([]string, error) {
 // PlainSpeller writes the canonical spelling; names are written as the model says.
 type PlainSpeller struct{}
 
-func (PlainSpeller) Name(n MName) string { return SpellMName(n) }
+func (PlainSpeller) Name(n MName) string            { return SpellMName(n) }
 func (PlainSpeller) Num(v uint32, unit bool) string { return fmt.Sprint(v) }
-func (PlainSpeller) Str(b []byte) string { return `"` + EscTxt(b) + `"` }
-func (PlainSpeller) Word(s string) string { return s }
-func (PlainSpeller) HexChunks(b []byte) []string { return []string{hex.EncodeToString(b)} }
-func (PlainSpeller) IP(ip []byte) string { return IPText(ip) }
-func (PlainSpeller) TypeInMap(t uint16) string { return TypeText(t) }
+func (PlainSpeller) Str(b []byte) string            { return `"` + EscTxt(b) + `"` }
+func (PlainSpeller) Word(s string) string           { return s }
+func (PlainSpeller) HexChunks(b []byte) []string    { return []string{hex.EncodeToString(b)} }
+func (PlainSpeller) IP(ip []byte) string            { return IPText(ip) }
+func (PlainSpeller) TypeInMap(t uint16) string      { return TypeText(t) }
 
 // IPText is the usual text form of a 4- or 16-octet address.
 func IPText(ip []byte) string {
